@@ -63,7 +63,18 @@ def run_gev(case, R):
     D, lead = case['D'], tuple(case['lead'])
     Px = psd_target(rng, D, lead, case['rank'])
     Pn = gen.hpd(rng, D, cond=case['cond'], lead=lead, scale=float(10 ** rng.uniform(-2, 2)))
-    info = dict(D=D, lead=list(lead), cond=case['cond'], rank=case['rank'], use_eig=case['use_eig'], impl='cython' if bf.c_gev_available else 'scipy')
+    variant = ['c', 'c', 'colmajor', 'real-target', 'fortran'][case['rs'][-1] % 5]
+    if variant == 'colmajor':
+        # (D, D) blocks stored column-major (e.g. the conjugate-transposed view of a C array, or a loadmat result)
+        Px = np.ascontiguousarray(np.swapaxes(Px, -1, -2).conj()).swapaxes(-1, -2).conj()
+        Pn = np.ascontiguousarray(np.swapaxes(Pn, -1, -2).conj()).swapaxes(-1, -2).conj()
+    elif variant == 'fortran':
+        Px, Pn = np.asfortranarray(Px), np.asfortranarray(Pn)
+    elif variant == 'real-target':
+        A = rng.standard_normal((*lead, D, max(1, case['rank'])))
+        Px = np.einsum('...ab,...cb->...ac', A, A)            # real symmetric PSD target with a real dtype, complex noise PSD
+    Px_before, Pn_before = Px.copy(), Pn.copy()
+    info = dict(D=D, lead=list(lead), cond=case['cond'], rank=case['rank'], use_eig=case['use_eig'], impl='cython' if bf.c_gev_available else 'scipy', variant=variant)
     if not lead:
         Px1, Pn1 = Px[None], Pn[None]
     try:
@@ -73,6 +84,8 @@ def run_gev(case, R):
             raise
         R.fail('C12.gev', 'gev/raised', f'get_gev_vector raised {type(e).__name__}: {str(e)[:100]}', **info)
         return
+    R.check('C12.gev', np.array_equal(Px, Px_before) and np.array_equal(Pn, Pn_before), 'gev/inputs-overwritten', 'get_gev_vector overwrote its PSD arguments', **info)
+    Px, Pn = Px_before, Pn_before
     if w.shape != Px.shape[:-1] or not np.isfinite(w).all():
         R.fail('C12.gev', 'gev/shape', f'shape {w.shape} for PSD {Px.shape}', **info)
         return
